@@ -143,7 +143,9 @@ def rest_post(op):
         attrs['14'] = {'afi_safi': afi_safi, 'nexthop': nh, 'nlri': [{str(k): v for k, v in r.items()} for r in op['routes']]}
     if op.get('withdraw_routes'):
         wk = op.get('wd_kind', op['kind'])
-        attrs['15'] = {'afi_safi': [1, 133] if wk == 'flowspec' else [1, 128], 'withdraw': [{str(k): v for k, v in r.items()} for r in op['withdraw_routes']]}
+        # (a client may write the components of a rule in any order: the withdrawal names them in reverse)
+        attrs['15'] = {'afi_safi': [1, 133] if wk == 'flowspec' else [1, 128],
+                       'withdraw': [{str(k): v for k, v in (reversed(list(r.items())) if wk == 'flowspec' else r.items())} for r in op['withdraw_routes']]}
     b = {'attr': attrs}
     if op.get('nlri'):
         attrs.update({str(k): v for k, v in op['attr'].items()})
